@@ -188,10 +188,13 @@ impl<const BUFFER_CAPACITY: usize> RibbonController<BUFFER_CAPACITY> {
             // if this flag is true right now then they must have just lifted their finger
             if self.finger_is_pressing {
                 self.finger_just_released = true;
-                self.num_samples_received = 0;
-                self.num_samples_written = 0;
                 self.finger_is_pressing = false;
             }
+
+            // an out-of-range sample ends the current run even if it was too short to register as a press,
+            // otherwise short taps and glitches would add up to a press
+            self.num_samples_received = 0;
+            self.num_samples_written = 0;
         }
     }
 
